@@ -32,6 +32,33 @@ HOOKS = [
 ]
 
 
+ASSUMED = [
+    'A-STR-ORDER: QString::operator< is a strict total order, operator> its converse (uninterpreted predicate; axioms instantiated on the pair compared)',
+    'A-STD-SORT: std::sort(begin, end[, cmp]) and QStringList::sort() yield THE sorted permutation under the given strict order: an uninterpreted function of (list, order); lists of length <= 1 unchanged',
+    'A-DEDUP: QStringList::removeDuplicates() is a function of the list; result not longer, non-empty if the argument is',
+    'A-JOIN: QStringList::join(sep) is a function of (list, sep): "" for the empty list, the element for a one-element list',
+    'A-QMAP: QMap insert / contains / take / value / keys are the finite-map operations (uninterpreted functions of the map value); keys() is in ascending key order',
+    'A-QVARIANT: canConvert<QStringList>() holds for QString and QStringList; toStringList() of a QString s is [s] (also for ""), toString() of bool is "true"/"false", of a one-element list that element, else "" (Qt 5.15)',
+    'A-SHA1/UTF8/CONCAT: QCryptographicHash(alg).addData(x).result(), QString::toUtf8 and string concatenation are free constructors (congruence only; s + "" = s)',
+    'A-UTF16-OCTET: where no two strings of the info set are ordered differently by UTF-16 code units and by UTF-8 bytes, sorting by QString < (and by the lexicographic 4-tuple order of it) gives the i;octet-sorted list; the other inputs are finding C20-utf16-collation',
+    'A-FORM-XML + well-typed fields: a boolean field holds a bool and is answered as one <value> 1/0, a *-multi field holds a QStringList answered element by element, any other field holds a QString (or nothing) answered as one <value> if not empty (QXmppDataForm::toXml, not verified here; exercised by replay_caps.cpp)',
+    'value-class getters are functions of the value: Identity::category/type/language/name, Field::key/value, QXmppDataForm::isNull/fields; Identity setters are functional updates',
+    'the recursive specification functions XI, XF, XM, XK (xep0115.h) and CF, CI (caps.h) are ghost arrays; base cases in the contract requires, step equations assumed by ghost hooks at the loop index (definition by primitive recursion, independent of the code)',
+    'XEP-0115 5.4 (3.5) as precondition: the FORM_TYPE field is single-valued (not *-multi); QueryType is InfoQuery or ItemsQuery',
+    'A-EXT-PURE: client()->extensions(), QXmppClientExtension::discoveryFeatures()/discoveryIdentities() and QXmppClientPrivate::discoveryFeatures() are functions of the (unchanged) client state; QList::append succeeds (size below the QList maximum)',
+    'QXmppClient::findExtension<QXmppDiscoveryManager>() returns the installed discovery manager of this client (its client() is this client) or nullptr',
+    'QXmppDiscoveryIq() has empty identity/feature lists, a null form, an empty node; QXmppIq::setType sets the IQ type only',
+]
+NOT_COVERED = [
+    'the converse direction of the statement (the hash changes whenever an identity, feature or form value is added, removed or altered): S is not injective by design of XEP-0115 (a "<" inside a value) and SHA-1 is not modelled beyond congruence',
+    'order-/duplicate-blindness for lists of every length: follows from the comparator lemma + A-STD-SORT/A-DEDUP (uniqueness of the sorted permutation), shown by CBMC only as the bounded stand-in (length <= 4)',
+    'base64 of the ver attribute, QXmppPresence::toXml/parse, QXmppDataForm::toXml/parse',
+    'more than one extension form (QXmppDiscoveryIq holds one), forms that repeat a var (excluded by XEP-0004 3.2), ill-typed QVariants in fields',
+    'the call sites of addProperCapability (QXmppClient.cpp:302, 464, 867) and the dispatch of incoming disco#info requests to handleIq',
+    'what the extensions and QXmppClientPrivate::discoveryFeatures() return',
+]
+
+
 def rd(name):
     return open(os.path.join(HERE, name)).read()
 
@@ -69,6 +96,8 @@ def build(work, tier):
     sp_caps, t_caps = low(MANAGER, 'QXmppDiscoveryManager', 'capabilities', CAPS, 'capabilities.spec')
     sp_hiq, t_hiq = low(MANAGER, 'QXmppDiscoveryManager', 'handleIq', HIQ, 'handleIq.spec')
     sp_apc, t_apc = low(CLIENT, 'QXmppClientPrivate', 'addProperCapability', APC, 'addProperCapability.spec')
+    # the specification names the field types whether or not the code does
+    b.need_enums.setdefault((os.path.join(REPO, DISCO), ()), {}).setdefault('QXmppDataForm::Field::Type', set()).update({'BooleanField', 'ListMultiField', 'JidMultiField', 'TextMultiField'})
     context = b.context()
     recs = []
     for src, cls in ((DISCO, 'QXmppDiscoveryIqPrivate'), (DISCO, 'QXmppDiscoveryIq'), (MANAGER, 'QXmppDiscoveryManagerPrivate'), (MANAGER, 'QXmppDiscoveryManager'),
@@ -96,12 +125,13 @@ def build(work, tier):
     p.expect_post = 5
     proofs.append(p)
     # ---------------------------------------------------------------- verificationString
-    c = head + t_vs + '\nvoid h_vs(void) { gh_every_field_has_a_value = nondet_bool(); gh_no_boolean_field = nondet_bool(); const QXmppDiscoveryIq *self; %s(self); }\n' % VS
+    c = head + t_vs + '\nvoid h_vs(void) { gh_every_field_has_a_value = nondet_bool(); gh_no_boolean_field = nondet_bool(); gh_qstring_order_is_octet_order = nondet_bool(); const QXmppDiscoveryIq *self; %s(self); }\n' % VS
     f = b.write('verificationString.c', c)
     alltext += c
     for pid, defs, finding in (('verificationString', ['FINDING_EXCLUDED'], None),
                                ('verificationString.field_without_value', ['FINDING_ONLY_VALUELESS'], 'C20-valueless-field'),
-                               ('verificationString.boolean_field', ['FINDING_ONLY_BOOLEAN'], 'C20-boolean-field')):
+                               ('verificationString.boolean_field', ['FINDING_ONLY_BOOLEAN'], 'C20-boolean-field'),
+                               ('verificationString.strings_ordered_differently_by_utf16_and_utf8', ['FINDING_ONLY_COLLATION'], 'C20-utf16-collation')):
         p = Proof(pid, f, 'h_vs', enforce=VS, kind='contract', expect_loops=4, include_dirs=[QT], defines=defs, timeout=900,
                   note='four loops closed by loop contracts: identity lists, feature lists and forms of every length')
         if finding:
@@ -118,7 +148,7 @@ def build(work, tier):
     vs_proto = b.prototype(t_vs)
     caps_proto = b.prototype(t_caps)
     c = head + body2 + smalltext + vs_proto + caps_proto + t_apc + \
-        '\nvoid h_apc(void) { gh_client = nondet_int(); gh_every_field_has_a_value = nondet_bool(); gh_no_boolean_field = nondet_bool(); QXmppDiscoveryManager *m; gh_disco = m; QXmppClientPrivate *self; QXmppPresence *presence; %s(self, presence); }\n' % APC
+        '\nvoid h_apc(void) { gh_client = nondet_int(); gh_every_field_has_a_value = nondet_bool(); gh_no_boolean_field = nondet_bool(); gh_qstring_order_is_octet_order = nondet_bool(); QXmppDiscoveryManager *m; gh_disco = m; QXmppClientPrivate *self; QXmppPresence *presence; %s(self, presence); }\n' % APC
     f = b.write('addProperCapability.c', c)
     alltext += c
     p = Proof('addProperCapability', f, 'h_apc', enforce=APC, replace=[c_ for c_ in (CAPS, VS) if c_ in callees[APC]], kind='complete', loop_contracts=False, include_dirs=[QT], defines=['FINDING_EXCLUDED'], timeout=600,
@@ -146,17 +176,41 @@ def build(work, tier):
     alltext += c
     modes = ((0, 'identities_exchanged'), (1, 'features_exchanged'), (2, 'feature_repeated'), (3, 'form_fields_exchanged'), (4, 'field_values_exchanged'))
     for m, what in modes:
-        p = Proof('bounded.hash_blind_to.' + what, f, 'h_perm', kind='bounded', loop_contracts=False, unwind=6, include_dirs=[QT], timeout=1500,
+        p = Proof('bounded.hash_blind_to.' + what, f, 'h_perm', kind='bounded', loop_contracts=False, unwind=5, include_dirs=[QT], timeout=1500,
                   defines=['BOUNDED_MODE=%d' % m], no_std_checks=True, flags=['--no-standard-checks'],
-                  bound_text='lists of length <= 4 (identities, features, form fields, values of a field), strings drawn from 8 values, one concrete total order on them; '
-                             'concrete insertion sort calling the lowered identityLessThan; the two info sets differ by one exchange of neighbours / one repeated feature; '
-                             'the unchanged parts of the info set hold at most one element',
+                  bound_text='lists of length <= 4 (identities, features, form fields, values of a field), strings drawn from 8 values with one concrete total order; '
+                             'concrete insertion sort calling the lowered identityLessThan; the two info sets differ by one exchange of neighbours / one repeated feature',
                   note='the lowered real verificationString runs on two info sets that differ by one elementary reordering / repetition; not counted as proved')
         p.expect_post = 1
         proofs.append(p)
     return {
         'proofs': proofs, 'functions': b.functions, 'dropped': b.dropped, 'fired': b.fired, 'hooks': HOOKS,
-        'assumed': [],
+        'assumed': ASSUMED,
         'assumes': scan_assumes(alltext),
-        'not_covered': [],
+        'not_covered': NOT_COVERED,
+        'explanation': 'XEP-0115 5.1 written as recursive functions of the info set (ghost arrays, units/C20/xep0115.h); the verified text is the lowered real code; '
+                       'three input classes are recorded findings and verified separately; order-/duplicate-blindness of the whole hash only as a bounded stand-in',
     }
+
+
+# ---------------------------------------------------------------------------------------------- native replay
+def _run_native(arg):
+    from vlib import native
+    return native.run_driver(os.path.join(HERE, 'replay_caps.cpp'), [str(arg)])
+
+
+def find_input(unit, p, o, lab, work):
+    """a violated obligation of verificationString / identityLessThan: look for a concrete info set among the driver's scenarios
+    outside the recorded findings for which the REAL verificationString differs from the independent XEP-0115 implementation"""
+    if not re.search(r'verificationString|identityLessThan', p.id):
+        return None
+    rc, out = _run_native('regress')
+    m = re.search(r'^(\S+)\s+VIOLATED[^\n]*', out, re.M)
+    if rc == 1 and m:
+        return {'inputs': {'driver': 'units/C20/replay_caps.cpp', 'arg': m.group(1), 'what': m.group(0)[:300]}, 'reproduced': True, 'native_output': out[-3000:]}
+    return None
+
+
+def native_replay(rp):
+    rc, out = _run_native(rp['inputs']['arg'])
+    return rc == 1 and 'VIOLATED' in out, out
